@@ -132,6 +132,11 @@ var verifC13Invalid = []func(r *Router){
 	func(r *Router) { r.Add("/x", verifNop, "FETCH") },
 	func(r *Router) { r.Add("/x", verifNop, "DEL") },
 	func(r *Router) { r.Add("/x", verifNop, "GET,POST") },
+	// an optional part that closes before the end, although the pattern ends in ']' and the brackets balance
+	func(r *Router) { r.GET("/blog[/{category}][/{id}]", verifNop) },
+	func(r *Router) { r.GET("/blog[/go]/12[.html]", verifNop) },
+	func(r *Router) { r.GET("/a[/{v}[/x]/y[/z]]", verifNop) },
+	func(r *Router) { r.GET("/a[/b]/{v}[/{w}]", verifNop) },
 }
 
 // (c) every catalogued invalid definition is rejected by a panic at
